@@ -364,6 +364,17 @@ func (endp *Endpoint) NewSession(conn *smtp.Conn) (smtp.Session, error) {
 		return nil, endp.wrapErr("", true, "EHLO", err)
 	}
 
+	// go-smtp replaces the session object if the client sends EHLO/LHLO again
+	// but does not close the previous one. Do it here so a transaction that
+	// is still open is aborted and its resources are released.
+	if conn != nil {
+		if prev, ok := conn.Session().(*Session); ok && prev != nil {
+			if err := prev.Logout(); err != nil {
+				endp.Log.Error("previous session logout failed", err)
+			}
+		}
+	}
+
 	endp.sessionCnt.Add(1)
 
 	return sess, nil
